@@ -533,6 +533,7 @@ TRIGGERS = {
     "kruskal_1way": lambda c: c.op == "kfull" and len(c.args["shape"]) == 1,
     "kruskal_rank0": lambda c: c.op == "kfull" and len(c.args["K"]["weights"]) == 0 and len(c.args["shape"]) > 1,
     "sptenmat_empty_side_back": lambda c: c.op == "sptenmat_back" and bool(c.args["subs"]) and _empty_side(c),
+    "tucker_sparse_core_1way": lambda c: c.op == "tfull" and c.args["T"].get("sparse_core") and len(c.args["shape"]) == 1,
     "sptenmat_full_no_nonzeros": lambda c: c.op == "sptenmat_full" and not c.args["subs"] and _valid_request(c.args, len(c.args["shape"])),
 }
 
@@ -581,4 +582,15 @@ def _w_stm_full():
         return f"full() of a sptenmat without nonzeros raised {type(ex).__name__}: {ex}"
 
 
-WITNESSES = {"A-01": _w_a01, "A-02": _w_a02, "N-C01-1": _w_rank0, "N-C01-2": _w_stm_full}
+def _w_a02b():
+    import numpy as np
+    import pyttb as ttb
+    try:
+        sc = ttb.sptensor(np.array([[0]]), np.array([[4.0]]), (2,))
+        d = ttb.ttensor(sc, [np.array([[2.0, -1], [1, -1], [2, 3]])]).full().data
+        return None if [float(x) for x in d.ravel()] == [8.0, 4.0, 8.0] else f"wrong values {d}"
+    except Exception as ex:
+        return f"ttensor.full() with a sparse 1-way core raised {type(ex).__name__}: {ex}"
+
+
+WITNESSES = {"A-02b": _w_a02b, "A-01": _w_a01, "A-02": _w_a02, "N-C01-1": _w_rank0, "N-C01-2": _w_stm_full}
